@@ -1,6 +1,6 @@
 use super::{CheckedArg, FunctionMap, unnamed};
 use crate::Scope;
-use crate::css::{CssSelectorSet, Selector, Value};
+use crate::css::{BadSelector, CssSelectorSet, Selector, Value};
 use crate::value::ListSeparator;
 
 pub fn create_module() -> Scope {
@@ -33,7 +33,10 @@ pub fn create_module() -> Scope {
             .ok_or("At least one selector must be passed.")
             .named(name!(selectors))?;
         let first = CssSelectorSet::try_from(first)?;
-        Ok(v.fold(first, |b, e| b.nest(e, &b)).into())
+        let nested = v
+            .try_fold(first, |b, e| b.nest(e, &b))
+            .map_err(BadSelector::from)?;
+        Ok(nested.into())
     });
     def!(f, parse(selector), |s| {
         CssSelectorSet::parse_value(s.get(name!(selector))?)
